@@ -227,7 +227,15 @@ func genValidSpec(r *hx.R, fp string, rich bool) *specs.Spec {
 		}
 		s.Devices = append(s.Devices, d)
 	}
-	if rich || r.Chance(0.3) {
+	if rich && r.Chance(0.25) {
+		// Spec-level edits consisting of nothing but the two kinds added last (additional GIDs, Intel RDT)
+		if r.Chance(0.7) {
+			s.ContainerEdits.AdditionalGIDs = hx.Pick(r, [][]uint32{{11, 12}, {0, 13}, {14}})
+		}
+		if len(s.ContainerEdits.AdditionalGIDs) == 0 || r.Chance(0.5) {
+			s.ContainerEdits.IntelRdt = &specs.IntelRdt{ClosID: "spec-" + hx.Pick(r, []string{"a", "b"}), L3CacheSchema: "L3:0=f"}
+		}
+	} else if rich || r.Chance(0.3) {
 		s.ContainerEdits.Env = []string{"SPECFP=" + fp}
 		if rich {
 			richEdits(r, &s.ContainerEdits, fp)
@@ -264,6 +272,9 @@ func richEdits(r *hx.R, e *specs.ContainerEdits, tag string) {
 	}
 	if r.Chance(0.3) {
 		e.AdditionalGIDs = hx.Pick(r, [][]uint32{{0, 5, 0, 7}, {0, 9}, {5, 5, 6}, {7}})
+	}
+	if r.Chance(0.2) {
+		e.IntelRdt = &specs.IntelRdt{ClosID: "dev-" + hx.Pick(r, []string{"x", "y"}), EnableMBM: r.Chance(0.5)}
 	}
 	hostRichEdits(r, e)
 }
